@@ -28,6 +28,7 @@ type c01RPC struct {
 	Duplex      bool  `json:",omitempty"` // bidi on inproc: both directions flow concurrently
 	Scribble    bool  `json:",omitempty"` // senders overwrite each message right after the send has returned (it is theirs again)
 	HeaderFirst bool  `json:",omitempty"` // the client calls Header() before its first receive
+	HeaderConc  bool  `json:",omitempty"` // another goroutine of the client calls Header() while the receive loop runs
 	ReuseDst    bool  `json:",omitempty"` // receivers receive into one and the same message object every time
 	CPace       []int `json:",omitempty"` // Gosched counts before client sends
 	HPace       []int `json:",omitempty"` // Gosched counts before handler sends
@@ -37,6 +38,9 @@ type c01RPC struct {
 type c01Case struct {
 	Carrier string
 	RPCs    []c01RPC
+	// Chunked (HTTP carriers): a middleware removes the Content-Length of replies (as compression or a
+	// re-chunking proxy does), so unary replies arrive with unknown length
+	Chunked bool `json:",omitempty"`
 }
 
 type c01run struct {
@@ -254,6 +258,21 @@ func (r *c01run) client(conn grpc.ClientConnInterface, i int) {
 			r.fault("rpc %d (%s): Header(): %v", i, sp.Kind, err)
 		}
 	}
+	if sp.HeaderConc {
+		wg.Add(1)
+		started := make(chan struct{})
+		go func() {
+			defer wg.Done()
+			close(started)
+			if _, err := cs.Header(); err != nil {
+				r.fault("rpc %d (%s): concurrent Header(): %v", i, sp.Kind, err)
+			}
+		}()
+		<-started
+		for k := 0; k < 3; k++ {
+			runtime.Gosched() // let it get to wait for the first frame
+		}
+	}
 	cdst := new(pb.Message)
 	for j := 0; ; j++ {
 		pace(sp.RPace, j)
@@ -291,7 +310,11 @@ func (r *c01run) client(conn grpc.ClientConnInterface, i int) {
 
 func c01Exec(c *c01Case, carrier string) (faults []string, stalled string) {
 	r := newC01Run(c)
-	car := newCarrier(carrier, newServiceDesc(), r.service(), carrierOpts{})
+	var co carrierOpts
+	if c.Chunked && isHTTP(carrier) {
+		co.WrapHandler = chunkedMiddleware
+	}
+	car := newCarrier(carrier, newServiceDesc(), r.service(), co)
 	defer car.Close()
 	done := make(chan struct{})
 	go func() {
@@ -416,6 +439,7 @@ func genC01RPC(t *rapid.T, carrier string, maxMsg int) c01RPC {
 	}
 	rp.Scribble = rp.Kind != kUnary && rapid.Bool().Draw(t, "scribble")
 	rp.HeaderFirst = rp.Kind != kUnary && rapid.IntRange(0, 3).Draw(t, "headerfirst") == 0
+	rp.HeaderConc = rp.Kind != kUnary && !rp.HeaderFirst && rapid.IntRange(0, 3).Draw(t, "headerconc") == 0
 	rp.ReuseDst = rp.Kind != kUnary && rapid.IntRange(0, 2).Draw(t, "reusedst") == 0
 	rp.CPace = genPace(t, "cpace", nreq)
 	rp.HPace = genPace(t, "hpace", nresp)
@@ -425,6 +449,7 @@ func genC01RPC(t *rapid.T, carrier string, maxMsg int) c01RPC {
 
 func genC01(t *rapid.T) c01Case {
 	c := c01Case{Carrier: rapid.SampledFrom(sutCarriers).Draw(t, "carrier")}
+	c.Chunked = isHTTP(c.Carrier) && rapid.IntRange(0, 3).Draw(t, "chunked") == 0
 	maxK := 16
 	if thorough() {
 		maxK = 64
@@ -463,7 +488,7 @@ func init() { registerReplay("C01", propC01) }
 
 const c01Rule = "rapid-generated: carrier x K concurrent RPCs on one channel (K up to 16, thorough 64), each with its own kind, request and response lists (0..12 messages: empty messages, zero-length encodings, maps/Any/unknown fields, payloads up to 1 MiB), per-op pacing, full-duplex bidi on inproc; " +
 	"plus forced size classes (1, 5, 17 MiB; thorough 48 and 96 MiB) on every carrier; every message is tagged (rpc, direction, index); oracle at every receive: i-th message obtained equals i-th message of the peer's list and the peer had started sending it; at a successful end both sequences complete; " +
-	"also generated since the seeded rounds: senders that scribble over a message right after sending it, header-first clients, receivers decoding into one reused message, chopped reads, encoded sizes within 12 bytes of every power of two from 64 B to 128 KiB, handlers attaching the protocol's own status keys as metadata (must change nothing), wrapped status errors; " +
+	"also generated since the seeded rounds: senders that scribble over a message right after sending it, header-first clients, receivers decoding into one reused message, Header() from a second goroutine while the receive loop runs, encoded sizes within 12 bytes of every power of two from 64 B to 128 KiB, the per-method HTTP server form (HandleMethod/HandleStream), replies without Content-Length (chunked by a middleware); " +
 	"grpc-go over bufconn arbitrates any deviation; non-trivial = >=2 messages in a direction, or an empty message, or a message >=64 KiB, or K>=2; distinct by case hash"
 
 func TestC01(t *testing.T) {
